@@ -211,13 +211,39 @@ class Interp:
             neg = key.startswith("!")
             k = key[1:] if neg else key
             if k not in self.oracle:
-                self.asked.append(k)
-                self.oracle[k] = True
+                implied = self.implied(k)
+                if implied is not None:
+                    self.oracle[k] = implied
+                else:
+                    self.asked.append(k)
+                    self.oracle[k] = True
             r = self.oracle[k]
             return (not r) if neg else r
         if isinstance(v, Rec):
             return True
         return bool(v)
+
+    # type domains of symbolic inputs (from the dataclass annotations, checked by the rule module):
+    # SpecOp.spec is a Spec or a dict, nothing else
+    TYPE_DOMAINS = {".spec": ("Spec", "dict")}
+
+    def implied(self, k):
+        import re as _re
+        m = _re.match(r"^isinstance\((.+), (\w+)\)$", k)
+        if not m:
+            return None
+        obj, t = m.group(1), m.group(2)
+        for suffix, dom in self.TYPE_DOMAINS.items():
+            if obj.endswith(suffix) and t in dom:
+                others = [x for x in dom if x != t]
+                for o in others:
+                    ko = "isinstance(%s, %s)" % (obj, o)
+                    if ko in self.oracle:
+                        if self.oracle[ko]:
+                            return False
+                if all(("isinstance(%s, %s)" % (obj, o)) in self.oracle and not self.oracle["isinstance(%s, %s)" % (obj, o)] for o in others):
+                    return True
+        return None
 
     # -- expressions ----------------------------------------------------------------
     def ev(self, e, env):
